@@ -1,6 +1,7 @@
 package c09
 
 import (
+	"os"
 	"encoding/json"
 	"fmt"
 	"regexp"
@@ -137,6 +138,7 @@ func run(tapeJSON json.RawMessage, res *core.Result) {
 		res.Verdict, res.Harness = "invalid", "client"
 		return
 	}
+	pol.FASTNegotiation = (tp.RunSeed>>9)%2 == 0
 	pol.ErrorSName = []string{"", "", "empty", "krbtgt"}[(tp.RunSeed>>7)%4] // form of the sname in the KDC's KRB-ERRORs
 	sim := refkdc.New("SIM.TEST", tp.RunSeed, pol)
 	other := refkdc.New("OTHER.TEST", tp.RunSeed+1, refkdc.Policy{CopyAddresses: true})
@@ -544,6 +546,9 @@ func run(tapeJSON json.RawMessage, res *core.Result) {
 			res.Probes["honest-exchange"]++
 		} else {
 			res.Stats["honest_failed"]++
+			if strings.Contains(os.Getenv("VERIF_DEBUG"), "c09-honest") {
+				engine.Violate(res, "debug-honest-exchange-failed|"+exName, d) // development aid only (VERIF_DEBUG)
+			}
 		}
 	}
 	if panicMsg != "" {
